@@ -622,11 +622,10 @@ def semHandle (st : DState) (ws : List String) : Option String :=
     | _, _ => some "bad-op"
   | ["bounds", key] =>
     match st.corpus.get? key with
-    | some (_, c) => match Sem.firstPrim c with
-      | some p => some s!"unsupported {p}"
-      | none =>
+    | some (_, c) =>
+        -- built-in types contribute the extremal lengths of their hand-written codecs (`primBounds`)
         let b := Sem.bounds {} c
-        some s!"lo={b.lo} hi={match b.hi with | some h => toString h | none => "inf"} fixed={match Sem.fixedMs c with | some n => toString n | none => "no"}"
+        some s!"lo={b.lo} hi={match b.hi with | some h => toString h | none => "inf"} fixed={match Sem.fixedMs c with | some n => toString n | none => "no"} prim={match Sem.firstPrim c with | some p => p | none => "-"}"
     | none => some "nokey"
   | ["fixed", key] =>
     match st.corpus.get? key with
